@@ -90,13 +90,36 @@ theorem WF_parts {env : MEnv} (h : WF env = true) :
     delCatches env "." "delattr" ["AttributeError"] = true ∧
     delCatches env "P" "handler" deleteHandlerExcs = true := by
   simp only [WF, Bool.and_eq_true, beq_iff_eq] at h
+  obtain ⟨h, _⟩ := h
   exact ⟨h.1.1.1.1.1.1.1.1, h.1.1.1.1.1.1.1.2, h.1.1.1.1.1.1.2, h.1.1.1.1.1.2, h.1.1.1.1.2⟩
 
 theorem WF_exc {env : MEnv} (h : WF env = true) :
     env.t.excTable.isSub "PathDeleteError" "PathDeleteError" = true ∧
     env.t.excTable.isSub "PathAccessError" "PathAccessError" = true := by
   simp only [WF, Bool.and_eq_true] at h
+  obtain ⟨h, _⟩ := h
   exact ⟨h.1.2, h.2⟩
+
+theorem WF_exact {env : MEnv} (h : WF env = true) :
+    ∀ op, op = "[" ∨ op = "." → ∃ k caught r, branchOf env.delBr op = some (k, caught, r) ∧
+      C01.caughtBy env.t caught ⟨"RuntimeError"⟩ = false ∧ C01.caughtBy env.t caught ⟨"TypeError"⟩ = false := by
+  simp only [WF, Bool.and_eq_true] at h
+  have hx := h.2
+  simp only [delExactOK, List.all_cons, List.all_nil, Bool.and_true, Bool.and_eq_true] at hx
+  intro op hop
+  have hone : (match branchOf env.delBr op with
+      | some (_, caught, _) => (!C01.caughtBy env.t caught ⟨"RuntimeError"⟩ && !C01.caughtBy env.t caught ⟨"TypeError"⟩)
+      | none => false) = true := by
+    rcases hop with rfl | rfl
+    · exact hx.1
+    · exact hx.2
+  cases hb : branchOf env.delBr op with
+  | none => rw [hb] at hone; cases hone
+  | some x =>
+    obtain ⟨k, c, r⟩ := x
+    rw [hb] at hone
+    simp only [Bool.and_eq_true, Bool.not_eq_true'] at hone
+    exact ⟨k, c, r, rfl, hone.1, hone.2⟩
 
 /-- does the `except` clause of branch `op` of `_del_one` name a class of `e`? -/
 def delCaught (env : MEnv) (op : String) (e : PyExc) : Bool :=
@@ -169,6 +192,38 @@ end Glom.C12
 namespace Glom.C12
 open Glom Glom.Mut Glom.C11
 
+/-- the `except` clauses of `_del_one` (extracted) swallow exactly what the reading says (`swallowed`) -/
+theorem delCaught_swallowed {env : MEnv} (hwf : WF env = true) {op : String} (hop : finalOk op = true)
+    {h : Heap} {dest arg : Val} {e : PyExc} (hr : refDelOp env h op dest arg = some (.error e)) :
+    delCaught env op e = swallowed op e := by
+  by_cases hm : missingExc e = true
+  · rw [missing_caught hwf hop hr hm]; simp [swallowed, hm]
+  · simp only [finalOk, Bool.or_eq_true, beq_iff_eq] at hop
+    rcases hop with (rfl | rfl) | rfl
+    · obtain ⟨k, c, r, hb, h1, h2⟩ := WF_exact hwf "[" (.inl rfl)
+      simp only [refDelOp, beq_self_eq_true, if_true, Option.some.injEq] at hr
+      simp only [delCaught, hb, swallowed, hm]
+      rcases pyDelitem_exc hr with rfl | rfl | rfl | rfl
+      · simpa [exc] using h1
+      · simpa [exc] using h2
+      · simp [missingExc, exc] at hm
+      · simp [missingExc, exc] at hm
+    · obtain ⟨k, c, r, hb, h1, h2⟩ := WF_exact hwf "." (.inr rfl)
+      simp only [refDelOp] at hr
+      simp at hr
+      simp only [delCaught, hb, swallowed, hm]
+      rcases pyDelattr_exc hr with rfl | rfl | rfl
+      · simpa [exc] using h1
+      · simp [missingExc, exc] at hm
+      · simpa [exc] using h2
+    · obtain ⟨_, _, _, _, h3⟩ := WF_parts hwf
+      obtain ⟨c3, hb3, hc3⟩ := delCatches_parts h3
+      simp only [refDelOp] at hr
+      simp at hr
+      obtain ⟨hn, _, hr⟩ := hr
+      simp only [delCaught, hb3, swallowed, beq_self_eq_true, Bool.true_or]
+      exact hc3 e.cls (applyDeleteHandler_exc hr)
+
 /-- what the refinement says about one run of the model of `delete` -/
 def Refines (h : Heap) (target : Val) (ignore : Bool) (arg : Option Val) (out : St × Except MErr Val) :
     RefRes → Prop
@@ -179,10 +234,11 @@ def Refines (h : Heap) (target : Val) (ignore : Bool) (arg : Option Val) (out : 
   | .missingParent k e =>
     out.1.heap = h ∧ out.1.hidden = false ∧
       (if ignore then out.2 = .ok target else out.2 = .error (.pae k e))
-  | .fault =>
+  | .fault silent =>
     out.1.heap = h ∧ out.1.hidden = false ∧
-      ((∃ e, out.2 = .error e) ∨ (ignore = true ∧ out.2 = .ok target))
-  | .partialFail => False
+      (if silent then (if ignore then out.2 = .ok target else ∃ e a, out.2 = .error (.pdelete e a))
+       else ∃ e, out.2 = .error e)
+  | .partialFail _ _ => False
   | .unsupported => False
 
 /-- **Main refinement**: for a wildcard-free path the model of `Delete` does exactly what the
@@ -195,7 +251,7 @@ theorem delete_spec {env : MEnv} (hwf : WF env = true) (hc : classesOK env = tru
   obtain ⟨hwf1, hx, _, _, _⟩ := WF_parts hwf
   unfold delete refDelete
   cases hl : orig.getLast? with
-  | none => exact ⟨rfl, rfl, .inl ⟨_, rfl⟩⟩
+  | none => exact ⟨rfl, rfl, ⟨_, rfl⟩⟩
   | some last =>
     obtain ⟨op, arg⟩ := last
     have hlastw : C01.wfSteps [(op, arg)] = true := (wfSteps_iff orig).1 hs _ (getLast?_mem hl)
@@ -224,7 +280,7 @@ theorem delete_spec {env : MEnv} (hwf : WF env = true) (hc : classesOK env = tru
       simp only [hf, stars_zero hpns, applyForEach, beq_self_eq_true, if_true]
       rw [delOne_eq hwf hfin]
       cases hr : refDelOp env h op d arg with
-      | none => exact ⟨rfl, rfl, .inl ⟨_, rfl⟩⟩
+      | none => exact ⟨rfl, rfl, ⟨_, rfl⟩⟩
       | some r =>
         cases r with
         | ok w => exact ⟨rfl, rfl, by simp [St.wrote]⟩
@@ -235,20 +291,28 @@ theorem delete_spec {env : MEnv} (hwf : WF env = true) (hc : classesOK env = tru
             simp only [hme, if_true, hcg]
             cases ignore <;> simp [Refines]
           · simp only [hme, Bool.false_eq_true, if_false]
-            by_cases hcg : delCaught env op e = true
-            · simp only [hcg, if_true]
-              cases ignore <;> simp [Refines]
-            · simp only [hcg, Bool.false_eq_true, if_false]
-              exact ⟨rfl, rfl, .inl ⟨_, rfl⟩⟩
+            have hsw := delCaught_swallowed hwf hfin hr
+            simp only [swallowed, hme, Bool.or_false] at hsw
+            by_cases hP : (op == "P") = true
+            · simp only [hP] at hsw ⊢
+              simp only [hsw, if_true]
+              cases ignore with
+              | true => exact ⟨rfl, rfl, rfl⟩
+              | false => exact ⟨rfl, rfl, ⟨_, _, rfl⟩⟩
+            · simp only [Bool.not_eq_true] at hP
+              simp only [hP] at hsw ⊢
+              simp only [hsw, Bool.false_eq_true, if_false]
+              exact ⟨rfl, rfl, ⟨_, rfl⟩⟩
 
 /-! ### wildcards -/
 
 theorem seqM_delete {env : MEnv} (hwf : WF env = true) {op : String} (hop : finalOk op = true)
     (ignore : Bool) (arg : Val) : ∀ (ds : List Val) (st : St),
     match seqDel env ignore op arg st.heap st.hidden ds with
-    | some (h', hid) =>
+    | .ok (h', hid) =>
       ∃ st', seqM (delOne env ignore op arg) st ds = (st', .ok ()) ∧ st'.heap = h' ∧ st'.hidden = hid
-    | none => ignore = false → ∃ st' e, seqM (delOne env ignore op arg) st ds = (st', .error e) := by
+    | .error (h', hid) =>
+      ∃ st' e, seqM (delOne env ignore op arg) st ds = (st', .error e) ∧ st'.heap = h' ∧ st'.hidden = hid := by
   intro ds
   induction ds with
   | nil => intro st; exact ⟨st, rfl, rfl, rfl⟩
@@ -257,7 +321,7 @@ theorem seqM_delete {env : MEnv} (hwf : WF env = true) {op : String} (hop : fina
     simp only [seqDel, seqM]
     rw [delOne_eq hwf hop]
     cases hr : refDelOp env st.heap op d arg with
-    | none => intro _; exact ⟨_, _, rfl⟩
+    | none => exact ⟨_, _, rfl, rfl, rfl⟩
     | some r =>
       cases r with
       | ok w =>
@@ -265,18 +329,14 @@ theorem seqM_delete {env : MEnv} (hwf : WF env = true) {op : String} (hop : fina
         simpa [St.wrote] using this
       | error e =>
         simp only
-        by_cases hig : (ignore && missingExc e) = true
-        · simp only [Bool.and_eq_true] at hig
-          have hcg := missing_caught hwf hop hr hig.2
-          simp only [hig.1, hig.2, Bool.and_self, if_true, hcg]
-          have := ih st
-          simpa [hig.1] using this
-        · simp only [hig, Bool.false_eq_true, if_false]
-          intro hign
-          subst hign
-          by_cases hcg : delCaught env op e = true
-          · simp only [hcg, if_true, Bool.false_eq_true, if_false]; exact ⟨_, _, rfl⟩
-          · simp only [hcg, Bool.false_eq_true, if_false]; exact ⟨_, _, rfl⟩
+        rw [delCaught_swallowed hwf hop hr]
+        by_cases hsw : swallowed op e = true
+        · simp only [hsw, Bool.and_true, if_true]
+          cases ignore with
+          | true => simpa using ih st
+          | false => exact ⟨_, _, rfl, rfl, rfl⟩
+        · simp only [hsw, Bool.and_false, Bool.false_eq_true, if_false]
+          exact ⟨_, _, rfl, rfl, rfl⟩
 
 end Glom.C12
 
@@ -318,6 +378,6 @@ theorem pyDelitem_list {env : MEnv} {h : Heap} {a : Nat} {c : String} {xs : List
 theorem covered_parts {env : MEnv} {orig : List Step} (hy : C12.covered env orig = true) :
     C12.WF env = true ∧ classesOK env = true ∧ C01.wfSteps orig = true := by
   simp only [C12.covered, Bool.and_eq_true] at hy
-  exact ⟨hy.1.1, hy.1.2, hy.2⟩
+  exact ⟨hy.1.1.1, hy.1.1.2, hy.1.2⟩
 
 end Glom.C12
